@@ -75,7 +75,7 @@ type harness struct {
 
 func run(r *core.R) {
 	r.FaultDecl("stale_pool_cache", "stale_block_cache", "api_conflict_injected", "api_error_before_effect", "api_commit_then_error",
-		"ipam_release_error", "controller_crash", "controller_restart", "apiserver_clock_skew", "env_action_inside_reconcile")
+		"ipam_release_error", "controller_crash", "controller_restart", "informer_initial_list_late", "apiserver_clock_skew", "env_action_inside_reconcile")
 	r.ProbeDecl("reconcile_started", "api_conflict_stale_rv", "api_not_found", "finalizer_added", "finalizer_removed_from_terminating",
 		"finalizer_removed_from_nonactive", "pool_deleted_by_finalizer_removal", "release_affinities_called",
 		"pool_equal_timestamp_overlap", "pool_older_timestamp_newcomer", "pool_nested_inside_existing", "pool_covers_existing", "pool_same_cidr",
